@@ -8,6 +8,13 @@ snapshot = `m n (key payload prio)* h n idx* q n pos* s size pk <peeks> t dt`.
 import math
 
 I64MAX = 2 ** 63 - 1
+TAG_BASE = 1 << 40
+
+
+def rk(v):
+    """the harness's priority order: `Ord`/`Eq` of `Pri` look at rank(value) only (values >= TAG_BASE carry a 3-bit tag that
+    takes no part in the order); must agree with harness/src/types.rs::rank and PQ.Driver.Pr.rank"""
+    return v if v < TAG_BASE else TAG_BASE + (v - TAG_BASE) // 8
 
 
 class Snap:
@@ -69,6 +76,8 @@ def parse_line(text, lineno=0):
     ln.unordered = False
     lhs, _, rhs = text.partition(" => ")
     toks = lhs.split()
+    if toks and toks[0] == "ref":       # `(&q).into_iter()` / `(&mut q).into_iter()`: specified exactly like iter() / iter_mut()
+        toks = toks[1:]
     ln.op = toks[0]
     ln.args = toks[1:]
     res, _, snap = rhs.partition(" | ")
@@ -118,8 +127,8 @@ def extreme_ok(cont, e, want_max):
     k, pl, p = e
     if k not in cont or cont[k] != (pl, p):
         return False
-    ps = [v[1] for v in cont.values()]
-    return p >= max(ps) if want_max else p <= min(ps)
+    ps = [rk(v[1]) for v in cont.values()]
+    return rk(p) >= max(ps) if want_max else rk(p) <= min(ps)
 
 
 def j_extreme(kind, pre, ln):
@@ -185,7 +194,7 @@ def expected(kind, pre, ln):
             c[k] = (pl, p)
         else:
             old = c[k][1]
-            upd = op == "push" or (op == "push_increase" and p > old) or (op == "push_decrease" and p < old)
+            upd = op == "push" or (op == "push_increase" and rk(p) > rk(old)) or (op == "push_decrease" and rk(p) < rk(old))
             if upd:
                 if r != old:
                     return None, "%s returned %s, stored priority was %s" % (op, r, old)
@@ -437,6 +446,30 @@ def expected(kind, pre, ln):
         return c, None
     if op in ("clear", "drain"):
         return {}, None
+    if op == "fresh":
+        if t[0] != "capok":
+            return None, "constructor %s with capacity %s: %s" % (a[0], a[1], ln.res)
+        return {}, None
+    if op == "deser_unit":
+        if t[0] != "ok":
+            return None, "deserializing a unit answered " + ln.res
+        return {}, None
+    if op in ("deser_bad", "ser_fail"):
+        if ln.res != "err":
+            return None, "%s: expected an error and an untouched queue, got: %s" % (op, ln.res)
+        return c, None
+    if op == "try_reserve_oom":
+        if ln.res not in ("err", "capok"):
+            return None, "try_reserve under memory pressure: " + ln.res
+        return c, None
+    if op == "dbg":
+        if t[0] == "unparsable":
+            return None, "Debug output: " + ln.res
+        n = int(t[0])
+        got = sorted((int(t[2 + 4 * j]), int(t[3 + 4 * j]), int(t[4 + 4 * j])) for j in range(n))
+        if got != sorted((k,) + v for k, v in c.items()):
+            return None, "Debug lists %s, stored is %s" % (got, sorted((k,) + v for k, v in c.items()))
+        return c, None
     return None, None
 
 
@@ -543,13 +576,13 @@ def j_sorted(kind, pre, ln):
         if ln.unordered:
             return None     # (leaked iter_mut guard / caught panic: each element exactly once is all that is specified)
         for x, y in zip(ps, ps[1:]):
-            if (x > y) if asc else (x < y):
+            if (rk(x) > rk(y)) if asc else (rk(x) < rk(y)):
                 return "%s is not monotone: priorities %s" % (ln.op, ps)
         return None
     if ln.op == "into_sorted_iter":
         # remaining priorities as a multiset: with ties the identity of the elements skipped by nth / nth_back is not
         # observable, only their priorities are determined
-        remp = sorted(v[1] for v in c.values())
+        remp = sorted(rk(v[1]) for v in c.values())      # ranks: what the order is defined on
         yielded = set()
         i = 0
         calls = ln.args[1:]
@@ -570,8 +603,8 @@ def j_sorted(kind, pre, ln):
                     continue
                 want = remp[0] if kind == "pq" else remp[-1]     # the element a front-to-back traversal reaches last
                 if ln.unordered and e is not None:
-                    want = e[2]
-                if e is None or c.get(e[0]) != (e[1], e[2]) or e[0] in yielded or e[2] != want:
+                    want = rk(e[2])
+                if e is None or c.get(e[0]) != (e[1], e[2]) or e[0] in yielded or rk(e[2]) != want:
                     return "sorted iterator last() = %s, the last element due has priority %d" % (e, want)
                 continue
             if ck == "c":
@@ -595,8 +628,8 @@ def j_sorted(kind, pre, ln):
                 if c.get(e[0]) != (e[1], e[2]) or e[0] in yielded:
                     return "sorted iterator yielded %s which is not a stored element not yet yielded" % (e,)
                 want = remp[-1 - skip] if from_max else remp[skip]
-                if e[2] != want and not ln.unordered:
-                    return "sorted iterator yielded priority %d, but the %s due after skipping %d is %d" % (e[2], "maximum" if from_max else "minimum", skip, want)
+                if rk(e[2]) != want and not ln.unordered:
+                    return "sorted iterator yielded priority rank %d, but the %s due after skipping %d is %d" % (rk(e[2]), "maximum" if from_max else "minimum", skip, want)
                 yielded.add(e[0])
                 remp = remp[: len(remp) - skip - 1] if from_max else remp[skip + 1:]
             elif ck == "l":
@@ -695,8 +728,8 @@ def j_eq(kind, pre, ln):
     es, _ = entries(ln.args, 0)
     o = {}
     for (k, pl, p) in es:
-        o[k] = p
-    mine = {k: v[1] for k, v in pre.contents().items()}
+        o[k] = rk(p)        # the priority type's `==` is equality of ranks
+    mine = {k: rk(v[1]) for k, v in pre.contents().items()}
     want = "true" if o == mine else "false"
     if ln.res != want:
         return "eq answered %s for contents %s vs %s" % (ln.res, mine, o)
